@@ -1146,3 +1146,183 @@ Lemma wiring_depends_on_order :
   wire sa 0 = [Some (mkTok 1 KFac 3 1)] /\ wire sd 0 = [None] /\
   wire (run [OGet 1; OGet 0; OGet 3] sd) 0 = [None].
 Proof. vm_compute. repeat split. Qed.
+
+(** * Registration order: when every call of a definition sequence is accepted, the effective
+    definition set depends only on WHICH calls were made, not on their order *)
+From Coq Require Import Permutation.
+
+Fixpoint all_ok (ds : list op) (s : state) : bool :=
+  match ds with
+  | [] => true
+  | o :: ds' => is_def o &&
+                match snd (step s o) with UDef true => all_ok ds' (fst (step s o)) | _ => false end
+  end.
+
+Lemma all_ok_app a : forall b s, all_ok (a ++ b) s = all_ok a s && all_ok b (run a s).
+Proof.
+  induction a as [|o a IH]; intros b s; [reflexivity|].
+  cbn [app all_ok]. rewrite run_cons. destruct (is_def o); [|reflexivity]. cbn [andb].
+  destruct (snd (step s o)) as [[|]| |]; try reflexivity. apply IH.
+Qed.
+
+Record Char (ds : list op) (s : state) : Prop := {
+  C_blk : blocked s = false;
+  C_inst : forall n t, inst s n = Some t <-> exists v, In (OSet n v) ds /\ t = mkTok n KInst v 0;
+  C_fac : forall n id p, fac s n = Some (id, p) <-> In (OAddFactory n id p) ds;
+  C_dinst : forall n t, dinst s n = Some t <-> exists v, In (OSetDefault n v) ds /\ t = mkTok n KDef v 0;
+  C_dfac : forall n, fac s n = None ->
+                     forall id p, dfac s n = Some (id, p) <-> In (OAddDefaultFactory n id p) ds
+}.
+
+Lemma in_snoc {A} (x : A) l o : In x (l ++ [o]) <-> In x l \/ o = x.
+Proof. rewrite in_app_iff. cbn. tauto. Qed.
+
+Lemma char_init : Char [] init.
+Proof.
+  constructor; cbn; try reflexivity; intros; split; try discriminate; try tauto.
+  - intros (v & [] & _).
+  - intros (v & [] & _).
+Qed.
+
+Lemma char_step ds s o : Char ds s -> is_def o = true -> snd (step s o) = UDef true ->
+  Char (ds ++ [o]) (fst (step s o)).
+Proof.
+  intros [Hb Hi Hf Hdi Hdf] Hd Hok.
+  destruct o as [m v|m v|m id p|m id p| |]; try discriminate; revert Hok; cbn [step].
+  - unfold set_. rewrite Hb. split_if; cbn [snd fst]; try discriminate. intros _.
+    apply isSome_false in Heqb, Heqb0.
+    constructor; cbn [blocked inst fac dinst dfac].
+    + reflexivity.
+    + intros n t. destruct (N.eq_dec n m) as [->|Hne].
+      * rewrite upd_same. split.
+        -- intro E. inversion E. exists v. split; [apply in_snoc; auto | reflexivity].
+        -- intros (v' & Hin & ->). apply in_snoc in Hin as [Hin | Heq].
+           ++ assert (inst s m = Some (mkTok m KInst v' 0)) as Hc by (apply Hi; eauto). congruence.
+           ++ inversion Heq. reflexivity.
+      * rewrite upd_other by exact Hne. rewrite Hi. split; intros (v' & Hin & ->); exists v'; split; auto.
+        -- apply in_snoc; auto.
+        -- apply in_snoc in Hin as [Hin | Heq]; [exact Hin | inversion Heq; congruence].
+    + intros n id p. rewrite Hf, in_snoc. split; [auto | intros [H|H]; [exact H | discriminate]].
+    + intros n t. rewrite Hdi. split; intros (v' & Hin & ->); exists v'; split; auto.
+      * apply in_snoc; auto.
+      * apply in_snoc in Hin as [Hin | Heq]; [exact Hin | discriminate].
+    + intros n Hn id p. rewrite (Hdf n Hn), in_snoc. split; [auto | intros [H|H]; [exact H | discriminate]].
+  - unfold set_default. rewrite Hb. split_if; cbn [snd fst]; try discriminate. intros _.
+    apply isSome_false in Heqb, Heqb0.
+    constructor; cbn [blocked inst fac dinst dfac].
+    + reflexivity.
+    + intros n t. rewrite Hi. split; intros (v' & Hin & ->); exists v'; split; auto.
+      * apply in_snoc; auto.
+      * apply in_snoc in Hin as [Hin | Heq]; [exact Hin | discriminate].
+    + intros n id p. rewrite Hf, in_snoc. split; [auto | intros [H|H]; [exact H | discriminate]].
+    + intros n t. destruct (N.eq_dec n m) as [->|Hne].
+      * rewrite upd_same. split.
+        -- intro E. inversion E. exists v. split; [apply in_snoc; auto | reflexivity].
+        -- intros (v' & Hin & ->). apply in_snoc in Hin as [Hin | Heq].
+           ++ assert (dinst s m = Some (mkTok m KDef v' 0)) as Hc by (apply Hdi; eauto). congruence.
+           ++ inversion Heq. reflexivity.
+      * rewrite upd_other by exact Hne. rewrite Hdi. split; intros (v' & Hin & ->); exists v'; split; auto.
+        -- apply in_snoc; auto.
+        -- apply in_snoc in Hin as [Hin | Heq]; [exact Hin | inversion Heq; congruence].
+    + intros n Hn id p. rewrite (Hdf n Hn), in_snoc. split; [auto | intros [H|H]; [exact H | discriminate]].
+  - unfold add_factory. rewrite Hb. split_if; cbn [snd fst]; try discriminate. intros _.
+    apply isSome_false in Heqb.
+    constructor; cbn [blocked inst fac dinst dfac].
+    + reflexivity.
+    + intros n t. rewrite Hi. split; intros (v' & Hin & ->); exists v'; split; auto.
+      * apply in_snoc; auto.
+      * apply in_snoc in Hin as [Hin | Heq]; [exact Hin | discriminate].
+    + intros n id' p'. destruct (N.eq_dec n m) as [->|Hne].
+      * rewrite upd_same, in_snoc. split.
+        -- intro E. inversion E. auto.
+        -- intros [Hin | Heq]; [apply Hf in Hin; congruence | inversion Heq; reflexivity].
+      * rewrite upd_other by exact Hne. rewrite Hf, in_snoc.
+        split; [auto | intros [H|H]; [exact H | inversion H; congruence]].
+    + intros n t. rewrite Hdi. split; intros (v' & Hin & ->); exists v'; split; auto.
+      * apply in_snoc; auto.
+      * apply in_snoc in Hin as [Hin | Heq]; [exact Hin | discriminate].
+    + intros n. destruct (N.eq_dec n m) as [->|Hne].
+      * rewrite upd_same. discriminate.
+      * rewrite !upd_other by exact Hne. intros Hn id' p'. rewrite (Hdf n Hn), in_snoc.
+        split; [auto | intros [H|H]; [exact H | discriminate]].
+  - unfold add_default_factory. rewrite Hb. split_if; cbn [snd fst]; try discriminate; intros _.
+    + (* an explicit factory exists: silently ignored *)
+      constructor; try assumption.
+      * intros n t. rewrite Hi. split; intros (v' & Hin & ->); exists v'; split; auto.
+        -- apply in_snoc; auto.
+        -- apply in_snoc in Hin as [Hin | Heq]; [exact Hin | discriminate].
+      * intros n id' p'. rewrite Hf, in_snoc. split; [auto | intros [H|H]; [exact H | discriminate]].
+      * intros n t. rewrite Hdi. split; intros (v' & Hin & ->); exists v'; split; auto.
+        -- apply in_snoc; auto.
+        -- apply in_snoc in Hin as [Hin | Heq]; [exact Hin | discriminate].
+      * intros n Hn id' p'. rewrite (Hdf n Hn), in_snoc. split; [auto|].
+        intros [H|H]; [exact H|]. inversion H; subst. rewrite Hn in Heqb0. discriminate.
+    + apply isSome_false in Heqb, Heqb0.
+      constructor; cbn [blocked inst fac dinst dfac].
+      * reflexivity.
+      * intros n t. rewrite Hi. split; intros (v' & Hin & ->); exists v'; split; auto.
+        -- apply in_snoc; auto.
+        -- apply in_snoc in Hin as [Hin | Heq]; [exact Hin | discriminate].
+      * intros n id' p'. rewrite Hf, in_snoc. split; [auto | intros [H|H]; [exact H | discriminate]].
+      * intros n t. rewrite Hdi. split; intros (v' & Hin & ->); exists v'; split; auto.
+        -- apply in_snoc; auto.
+        -- apply in_snoc in Hin as [Hin | Heq]; [exact Hin | discriminate].
+      * intros n Hn id' p'. destruct (N.eq_dec n m) as [->|Hne].
+        -- rewrite upd_same, in_snoc. split.
+           ++ intro E. inversion E. auto.
+           ++ intros [Hin | Heq]; [apply (Hdf m Hn) in Hin; congruence | inversion Heq; reflexivity].
+        -- rewrite upd_other by exact Hne. rewrite (Hdf n Hn), in_snoc.
+           split; [auto | intros [H|H]; [exact H | inversion H; congruence]].
+Qed.
+
+Lemma char_run ds : all_ok ds init = true -> Char ds (run ds init).
+Proof.
+  induction ds as [|o ds IH] using rev_ind; intro H; [apply char_init|].
+  rewrite all_ok_app in H. apply andb_true_iff in H as [H1 H2]. cbn [all_ok] in H2.
+  apply andb_true_iff in H2 as [Hd Hs].
+  rewrite run_app. cbn [run fold_left]. apply char_step; [apply IH; exact H1 | exact Hd |].
+  destruct (snd (step (run ds init) o)) as [[|]| |]; try discriminate. reflexivity.
+Qed.
+
+Lemma opt_eq_of_iff {A} (a b : option A) : (forall x, a = Some x <-> b = Some x) -> a = b.
+Proof.
+  intro H. destruct a as [x|], b as [y|]; try reflexivity.
+  - symmetry. apply (H x). reflexivity.
+  - pose proof (proj1 (H x) eq_refl) as E. discriminate E.
+  - pose proof (proj2 (H y) eq_refl) as E. discriminate E.
+Qed.
+
+Lemma order_independent ds ds' : Permutation ds ds' ->
+  all_ok ds init = true -> all_ok ds' init = true ->
+  forall n, eff (run ds init) n = eff (run ds' init) n.
+Proof.
+  intros HP H1 H2 n.
+  destruct (char_run ds H1) as [_ Ai Af Adi Adf]. destruct (char_run ds' H2) as [_ Bi Bf Bdi Bdf].
+  assert (forall x, In x ds <-> In x ds') as Hin
+    by (intro x; split; apply Permutation_in; [exact HP | apply Permutation_sym; exact HP]).
+  assert (inst (run ds init) n = inst (run ds' init) n) as Ei.
+  { apply opt_eq_of_iff. intro t. rewrite Ai, Bi. split; intros (v & Hv & ->); exists v; split; auto; apply Hin; exact Hv. }
+  assert (fac (run ds init) n = fac (run ds' init) n) as Ef.
+  { apply opt_eq_of_iff. intros [id p]. rewrite Af, Bf. apply Hin. }
+  assert (dinst (run ds init) n = dinst (run ds' init) n) as Edi.
+  { apply opt_eq_of_iff. intro t. rewrite Adi, Bdi. split; intros (v & Hv & ->); exists v; split; auto; apply Hin; exact Hv. }
+  unfold eff. rewrite <- Ei, <- Ef, <- Edi.
+  destruct (inst (run ds init) n); [reflexivity|].
+  destruct (fac (run ds init) n) as [[? ?]|] eqn:Efn; [reflexivity|].
+  destruct (dinst (run ds init) n); [reflexivity|].
+  assert (dfac (run ds init) n = dfac (run ds' init) n) as Edf.
+  { apply opt_eq_of_iff. intros [id p]. rewrite (Adf n Efn), (Bdf n). apply Hin. congruence. }
+  rewrite <- Edf. reflexivity.
+Qed.
+
+Lemma order_independent_outcome ds ds' reqs reqs' n : Permutation ds ds' ->
+  all_ok ds init = true -> all_ok ds' init = true ->
+  let r := snd (Get (run reqs (block (run ds init))) n) in
+  let r' := snd (Get (run reqs' (block (run ds' init))) n) in
+  is_ok r = is_ok r' /\ forall t t', r = GOk t -> r' = GOk t' -> tok_source t = tok_source t'.
+Proof.
+  intros HP H1 H2 r r'. apply (refines_same (eff (run ds init)) n).
+  - apply refines.
+  - apply (refines_ext (eff (run ds' init))); [|apply refines].
+    intro m. symmetry. apply order_independent; assumption.
+Qed.
